@@ -11,6 +11,10 @@
 //!   `w <subject hex> <word>`                `case $1 in (WORD) …;; (*) …` and the four trims of `$1` by WORD, for a pattern word built
 //!                                           from every quoting mechanism (encoding: Main.lean); also observes the attributed
 //!                                           characters the real `expand_word_attr` yields for WORD (`X=`)
+//!   `f <e|n> <pattern hex> <text hex>`      the regex search at EVERY start offset (through `Pattern::find` on every suffix, for
+//!                                           the four configurations without `\A`): the model's `findAt` at that offset
+//!   `t <k> <n> <tail hex>`                  `*a` x k + `*b` against `a` x n + tail (n up to several thousand): results by the
+//!                                           closed form, and a CPU-time bound on compile + is_match + find + rfind + trims
 //! Observation (`m`): error class or `E=ok`, literal fast path flag, `is_match` under the four anchor
 //! configurations, `find:rfind` byte ranges under seven (anchor, greed) configurations, `literal_period`
 //! variants, and the four trim results.
@@ -1421,9 +1425,9 @@ fn run_word_case(subj: &str, word: &[WUnit]) -> (String, String) {
     let mut ms = vec![];
     let mut skip = false;
     word_marks(word, false, &mut ms, &mut skip);
-    if skip {
-        return (obs, "-".into());
-    }
+    // `skip` (a raw backslash directly before a quotation mark) is judged like everything else since wave 3b: the
+    // backslash quotes the next character OF THE PATTERN, i.e. the next one quote removal leaves (XCU 2.13.1)
+    let _ = skip;
     let pcs = marks_to_pcs(&ms);
     let Some(toks) = oracle_parse(&pcs) else { return (obs, "-".into()) };
     let has_seq = toks.iter().any(|t| matches!(t, Tok::Set { seqs, .. } if !seqs.is_empty()));
@@ -1553,6 +1557,98 @@ fn rand_word_case(r: &mut Rng) -> String {
         _ => rand_text(r, &format!("{value}$\\\"")),
     };
     format!("w {} {}", enc_str(&subj), enc_word(&word, 0))
+}
+
+// ------------------------------------------------------------------------------------------
+// `f` cases: the regex search from every start offset
+
+/// (anchor_end, shortest) of the configurations whose regex has no `\A`
+const SUFFIX_CONFIGS: [(bool, bool); 4] = [(false, false), (false, true), (true, false), (true, true)];
+
+fn run_find_case(esc: bool, p: &str, text: &str) -> (String, String) {
+    let pcs = pchars(esc, p);
+    let bounds: Vec<usize> = text.char_indices().map(|x| x.0).chain([text.len()]).collect();
+    let mut groups = vec![];
+    let mut seen: Vec<Vec<Option<std::ops::Range<usize>>>> = vec![];
+    for (ae, sh) in SUFFIX_CONFIGS {
+        let pat = match Pattern::parse_with_config(pcs.iter().copied(), cfg(false, ae, sh, false)) {
+            Ok(p) => p,
+            Err(e) => return (format!("E={}", err_class(&e)), "-".into()),
+        };
+        if pat.as_literal().is_some() {
+            return ("L".into(), "-".into());
+        }
+        // `Regex::find_at(text, k)` for a regex without `\A` = `Regex::find(&text[k..])` shifted by k
+        let rs: Vec<Option<std::ops::Range<usize>>> =
+            bounds.iter().map(|&k| pat.find(&text[k..]).map(|r| r.start + k..r.end + k)).collect();
+        groups.push(rs.iter().map(|r| show_range(r.clone())).collect::<Vec<_>>().join(","));
+        seen.push(rs);
+    }
+    let obs = format!("W={}", groups.join("/"));
+    // oracle: from every offset the start found is the leftmost start >= offset of any match the anchoring admits,
+    // and what is reported is a match
+    let Some(toks) = oracle_parse(&to_pcs(esc, p)) else { return (obs, "-".into()) };
+    let s: Vec<char> = text.chars().collect();
+    let n = s.len();
+    for (ci, (ae, _)) in SUFFIX_CONFIGS.iter().enumerate() {
+        for k in 0..=n {
+            let want = (k..=n).find(|&i| (i..=n).any(|j| (!ae || j == n) && gm(&toks, &s[i..j])));
+            match (&seen[ci][k], want) {
+                (None, None) => {}
+                (Some(r), Some(st)) => {
+                    let (Some(a), Some(b)) =
+                        (bounds.iter().position(|&o| o == r.start), bounds.iter().position(|&o| o == r.end))
+                    else {
+                        return (obs, "FAIL:range not on char boundary".into());
+                    };
+                    if a != st || a > b || !gm(&toks, &s[a..b]) || (*ae && b != n) {
+                        return (obs, format!("FAIL:config {ci} offset {k}: {r:?} is not the leftmost match"));
+                    }
+                }
+                _ => return (obs, format!("FAIL:config {ci} offset {k}: presence")),
+            }
+        }
+    }
+    (obs, "ok".into())
+}
+
+// ------------------------------------------------------------------------------------------
+// `t` cases: long subjects, many `*` — results by the closed form, CPU time bounded
+
+fn cpu_seconds() -> f64 {
+    let mut ts = libc::timespec { tv_sec: 0, tv_nsec: 0 };
+    // SAFETY: plain syscall writing into a local
+    unsafe { libc::clock_gettime(libc::CLOCK_THREAD_CPUTIME_ID, &mut ts) };
+    ts.tv_sec as f64 + ts.tv_nsec as f64 * 1e-9
+}
+
+/// CPU seconds one `t` case may take (compile under five configurations, is_match, and the four trims incl. the
+/// `rfind` loop); the regex crate is linear in the text for a fixed pattern, the `rfind` loop quadratic.
+const T_BOUND_S: f64 = 4.0;
+
+fn run_time_case(k: usize, n: usize, tail: &str) -> (String, String) {
+    let p = format!("{}*b", "*a".repeat(k));
+    let text = format!("{}{}", "a".repeat(n), tail);
+    let pcs = pchars(false, &p);
+    let t0 = cpu_seconds();
+    let full = match Pattern::parse_with_config(pcs.iter().copied(), cfg(true, true, false, false)) {
+        Ok(p) => p.is_match(&text),
+        Err(e) => return (format!("E={}", err_class(&e)), "-".into()),
+    };
+    let mut lens = vec![];
+    for (ab, ae, sh) in TRIMS {
+        let pat = match Pattern::parse_with_config(pcs.iter().copied(), cfg(ab, ae, sh, false)) {
+            Ok(p) => p,
+            Err(e) => return (format!("E={}", err_class(&e)), "-".into()),
+        };
+        let mut v = text.clone();
+        trim_value(&pat, &mut v);
+        lens.push(v.chars().count().to_string());
+    }
+    let dt = cpu_seconds() - t0;
+    let obs = format!("M={} T={}", if full { 1 } else { 0 }, lens.join(","));
+    let oracle = if dt <= T_BOUND_S { "ok".to_string() } else { format!("FAIL:slow {:.1}s cpu for k={k} n={n}", dt) };
+    (obs, oracle)
 }
 
 // ------------------------------------------------------------------------------------------
@@ -1799,6 +1895,32 @@ fn run_case(case: &str, memo: &mut Option<Compiled>) {
             let oracle_out = shell_trim_oracle(&d[0], &d[1], &d[2], &obs);
             emit(case, &obs, &oracle_out);
         }
+        ["f", esc, p, t] => {
+            let (Some(p), Some(t)) = (dec_str(p), dec_str(t)) else {
+                emit(case, "bad-case", "-");
+                return;
+            };
+            let mut oracle_out = String::from("-");
+            let obs = guarded(|| {
+                let (obs, o) = run_find_case(*esc == "e", &p, &t);
+                oracle_out = o;
+                obs
+            });
+            emit(case, &obs, &oracle_out);
+        }
+        ["t", k, n, tail] => {
+            let (Ok(k), Ok(n), Some(tail)) = (k.parse::<usize>(), n.parse::<usize>(), dec_str(tail)) else {
+                emit(case, "bad-case", "-");
+                return;
+            };
+            let mut oracle_out = String::from("-");
+            let obs = guarded(|| {
+                let (obs, o) = run_time_case(k, n, &tail);
+                oracle_out = o;
+                obs
+            });
+            emit(case, &obs, &oracle_out);
+        }
         ["w", subj, word] => {
             let (Some(subj), Some(word)) = (dec_str(subj), parse_word(word, 0)) else {
                 emit(case, "bad-case", "-");
@@ -1971,6 +2093,26 @@ fn main() {
     let mut rk = Rng::new(opts.seed ^ 0xCA5E);
     for _ in 0..ncase {
         go(rand_case(&mut rk));
+    }
+
+    // 3c. the regex search from EVERY start offset (configurations without `\A`): random structured patterns x
+    // texts of up to 9 characters
+    let nfind = if thorough { 40_000 } else { 2_500 };
+    let mut rf = Rng::new(opts.seed ^ 0xF1AD);
+    for _ in 0..nfind {
+        let esc = rf.chance(1, 2);
+        let p = rand_pattern(&mut rf, esc);
+        let pool: Vec<char> = p.chars().filter(|c| !"*?[]\\".contains(*c)).chain(['a', 'b', '.', 'é', '𝄞']).collect();
+        let t: String = (0..rf.below(10)).map(|_| *rf.pick(&pool)).collect();
+        go(format!("f {} {} {}", if esc { "e" } else { "n" }, enc_str(&p), enc_str(&t)));
+    }
+
+    // 3d. long subjects against `*a*a…*b`: small sizes (where the driver runs the real model) and sizes of
+    // thousands of characters (closed form), each under a CPU-time bound
+    for (k, n) in [(1, 3), (2, 5), (3, 6), (3, 2), (2, 1000), (4, 1000), (8, 1500), (12, 2000), (20, 3000), (6, 5000)] {
+        for tail in ["b", "", "ba"] {
+            go(format!("t {k} {n} {}", enc_str(tail)));
+        }
     }
 
     // 5b. shell leg 3: pattern words (every quoting mechanism, nested) in `case` and the four trims
